@@ -510,4 +510,224 @@ theorem lemma_parse_head (s : Str) (t : List Str) (h : parse s = some t) :
           · cases h; exact Or.inl ⟨_, rfl⟩
           · cases h
 
+
+/-! ### decimal text -/
+
+
+/-- all characters are ASCII digits -/
+def Digits (ds : Str) : Prop := ∀ c ∈ ds, isDigit c = true
+
+/-- value of a digit string -/
+def decVal (ds : Str) : Nat := natOfDigits (ds.map digitVal)
+
+theorem lemma_digitsTail (r t : Str) (hr : Digits r)
+    (ht : ∀ c ∈ t.head?, isDigit c = false ∧ c ≠ '_') :
+    ∀ fuel, r.length ≤ fuel → digitsTail fuel (r ++ t) = (r.map digitVal, t) := by
+  induction r with
+  | nil =>
+    intro fuel _
+    cases fuel with
+    | zero => simp [digitsTail]
+    | succ n =>
+      cases t with
+      | nil => simp [digitsTail]
+      | cons c t =>
+        have := ht c (by simp)
+        simp [digitsTail, this.1, this.2]
+  | cons c r ih =>
+    intro fuel hf
+    obtain ⟨n, rfl⟩ : ∃ n, fuel = n + 1 := ⟨fuel - 1, by simp at hf; omega⟩
+    have hc : isDigit c = true := hr c (by simp)
+    have := ih (fun d hd => hr d (by simp [hd])) n (by simp at hf; omega)
+    simp [digitsTail, hc, this]
+
+theorem lemma_digitPart (ds t : Str) (hne : ds ≠ []) (hd : Digits ds)
+    (ht : ∀ c ∈ t.head?, isDigit c = false ∧ c ≠ '_') :
+    digitPart (ds ++ t) = (some (ds.map digitVal), t) := by
+  obtain ⟨c, r, rfl⟩ := List.exists_cons_of_ne_nil hne
+  have hc : isDigit c = true := hd c (by simp)
+  have := lemma_digitsTail r t (fun d hd' => hd d (by simp [hd'])) ht (r ++ t).length (by simp)
+  simp only [List.length_append] at this
+  simp [digitPart, hc, this]
+
+/-- `float()`'s number grammar on a plain decimal: digits, optionally `.` and more digits -/
+theorem lemma_floatNumber_int (ip : Str) (hne : ip ≠ []) (hd : Digits ip) :
+    floatNumber ip = some (decVal ip : Rat) := by
+  have := lemma_digitPart ip [] hne hd (by simp)
+  simp only [List.append_nil] at this
+  simp [floatNumber, this, withExponent, decVal]
+
+theorem lemma_floatNumber_dec (ip fp : Str) (hne : ip ≠ []) (hd : Digits ip) (hfne : fp ≠ [])
+    (hfd : Digits fp) :
+    floatNumber (ip ++ '.' :: fp) = some ((decVal ip : Rat) + (decVal fp : Rat) / (10 : Rat) ^ fp.length) := by
+  have h1 := lemma_digitPart ip ('.' :: fp) hne hd (by simp; decide)
+  have h2 := lemma_digitPart fp [] hfne hfd (by simp)
+  simp only [List.append_nil] at h2
+  simp [floatNumber, h1, h2, withExponent, decVal]
+
+
+theorem lemma_digit_range {c : Char} (h : isDigit c = true) : 48 ≤ c.toNat ∧ c.toNat ≤ 57 := by
+  simp only [isDigit, Bool.and_eq_true, decide_eq_true_eq] at h
+  have h1 := h.1; have h2 := h.2
+  rw [Char.le_def, UInt32.le_iff_toNat_le] at h1 h2
+  exact ⟨h1, h2⟩
+
+theorem lemma_digit_tbl : ∀ n < 58, 48 ≤ n → Gen.pySpace.contains n = false := by decide
+
+theorem lemma_digit_facts {c : Char} (h : isDigit c = true) :
+    isPySpace c = false ∧ c.toNat < 128 ∧ c ≠ '+' ∧ c ≠ '-' ∧ asciiLower c = c ∧ c ≠ 'i' ∧ c ≠ 'n' := by
+  obtain ⟨h1, h2⟩ := lemma_digit_range h
+  refine ⟨lemma_digit_tbl _ (by omega) h1, by omega, ?_, ?_, ?_, ?_, ?_⟩
+  · rintro rfl; revert h1; decide
+  · rintro rfl; revert h1; decide
+  · have : ¬ ('A' ≤ c ∧ c ≤ 'Z') := by
+      rintro ⟨ha, -⟩
+      rw [Char.le_def, UInt32.le_iff_toNat_le] at ha
+      have : 65 ≤ c.toNat := ha
+      omega
+    simp [asciiLower, this]
+  · rintro rfl; revert h2; decide
+  · rintro rfl; revert h2; decide
+
+theorem lemma_dropWhile_head (p : Char → Bool) (s : Str) (h : ∀ c ∈ s.head?, p c = false) :
+    s.dropWhile p = s := by
+  cases s with
+  | nil => rfl
+  | cons a m => simp [List.dropWhile_cons, h a (by simp)]
+
+theorem lemma_pyStrip (s : Str) (hh : ∀ c ∈ s.head?, isPySpace c = false)
+    (hl : ∀ c ∈ s.getLast?, isPySpace c = false) : pyStrip s = s := by
+  unfold pyStrip
+  rw [lemma_dropWhile_head _ s hh, lemma_dropWhile_head _ s.reverse (by simpa using hl), List.reverse_reverse]
+
+/-- `float()` on optional `-`, then text that starts and ends with a digit, is all ASCII, and is
+    a number `q` by the number grammar -/
+theorem lemma_pyFloat_plain (neg : Bool) (d : Char) (m : Str) (q : Rat) (hd : isDigit d = true)
+    (hlast : ∀ c ∈ (d :: m).getLast?, isDigit c = true) (hascii : ∀ c ∈ d :: m, c.toNat < 128)
+    (hq : floatNumber (d :: m) = some q) :
+    pyFloat ((if neg then ['-'] else []) ++ d :: m) = .num (.fin (if neg then -q else q)) := by
+  obtain ⟨hsp, _, hplus, hminus, hlow, hi, hn⟩ := lemma_digit_facts hd
+  have hlastsp : ∀ c ∈ ((if neg then ['-'] else []) ++ d :: m).getLast?, isPySpace c = false := by
+    intro c hc
+    have : c ∈ (d :: m).getLast? := by
+      cases neg <;> simpa [List.getLast?_append] using hc
+    exact (lemma_digit_facts (hlast c this)).1
+  have hheadsp : ∀ c ∈ ((if neg then ['-'] else []) ++ d :: m).head?, isPySpace c = false := by
+    intro c hc
+    cases neg
+    · simp at hc; subst hc; exact hsp
+    · simp at hc; subst hc; decide
+  have hany : ((if neg then ['-'] else []) ++ d :: m).any (fun c => decide (c.toNat ≥ 128)) = false := by
+    rw [List.any_eq_false]
+    intro c hc
+    have : c.toNat < 128 := by
+      cases neg
+      · exact hascii c (by simpa using hc)
+      · simp at hc
+        rcases hc with rfl | hc
+        · decide
+        · exact hascii c (by simpa using hc)
+    simp; omega
+  unfold pyFloat
+  rw [lemma_pyStrip _ hheadsp hlastsp]
+  simp only [hany, Bool.false_eq_true, if_false]
+  cases neg
+  · simp only [Bool.false_eq_true, if_false, List.nil_append]
+    split
+    · rename_i r heq; simp at heq; exact absurd heq.1 hplus
+    · rename_i r heq; simp at heq; exact absurd heq.1 hminus
+    · simp [hq, hlow, hi, hn]
+  · simp [hq, hlow, hi, hn]
+
+/-- text of a decimal number: optional `-`, digits, optionally `.` and more digits -/
+def decText (neg : Bool) (ip fp : Str) : Str :=
+  (if neg then ['-'] else []) ++ (ip ++ (if fp = [] then [] else '.' :: fp))
+
+/-- the rational it denotes -/
+def decValue (neg : Bool) (ip fp : Str) : Rat :=
+  let q : Rat := (decVal ip : Rat) + (decVal fp : Rat) / (10 : Rat) ^ fp.length
+  if neg then -q else q
+
+theorem lemma_decimal_text_value (neg : Bool) (ip fp : Str) (hne : ip ≠ []) (hd : Digits ip)
+    (hfd : Digits fp) : pyFloat (decText neg ip fp) = .num (.fin (decValue neg ip fp)) := by
+  obtain ⟨d, m, rfl⟩ := List.exists_cons_of_ne_nil hne
+  have hdd : isDigit d = true := hd d (by simp)
+  have h128 : ∀ c, isDigit c = true → c.toNat < 128 := fun c hc => (lemma_digit_facts hc).2.1
+  by_cases hfp : fp = []
+  · subst hfp
+    have hq := lemma_floatNumber_int (d :: m) (by simp) hd
+    have := lemma_pyFloat_plain neg d m _ hdd
+      (fun c hc => hd c (List.mem_of_getLast? hc)) (fun c hc => h128 c (hd c hc)) hq
+    have e : ∀ x : Rat, x + 0 / 1 = x := by intro x; grind
+    simpa [decText, decValue, decVal, natOfDigits, e] using this
+  · have hq := lemma_floatNumber_dec (d :: m) fp (by simp) hd hfp hfd
+    have hlast : ∀ c ∈ (d :: (m ++ '.' :: fp)).getLast?, isDigit c = true := by
+      intro c hc
+      have : c ∈ fp.getLast? := by
+        have e : d :: (m ++ '.' :: fp) = (d :: m ++ ['.']) ++ fp := by simp
+        rw [e, List.getLast?_append] at hc
+        cases hfl : fp.getLast? with
+        | none => simp [List.getLast?_eq_none_iff] at hfl; exact absurd hfl hfp
+        | some z => simpa [hfl] using hc
+      exact hfd c (List.mem_of_getLast? this)
+    have hascii : ∀ c ∈ d :: (m ++ '.' :: fp), c.toNat < 128 := by
+      intro c hc
+      simp only [List.mem_cons, List.mem_append] at hc
+      rcases hc with rfl | hc | rfl | hc
+      · exact h128 _ hdd
+      · exact h128 c (hd c (by simp [hc]))
+      · decide
+      · exact h128 c (hfd c hc)
+    have := lemma_pyFloat_plain neg d (m ++ '.' :: fp) _ hdd hlast hascii (by simpa using hq)
+    simpa [decText, decValue, hfp] using this
+
+
+theorem lemma_decimal_tbl : (∀ n < 58, (48 ≤ n ∨ n = 45 ∨ n = 46) → Gen.reSpace.contains n = false) ∧
+    (∀ L ∈ Gen.notLits, ∀ n < 58, (48 ≤ n ∨ n = 45) → L ≠ [] ∧ L.head?.map Char.toNat ≠ some n) := by
+  decide
+
+/-- a decimal text is an operand of the documented language -/
+theorem lemma_decimal_atom (neg : Bool) (ip fp : Str) (hne : ip ≠ []) (hd : Digits ip) (hfd : Digits fp) :
+    IsAtom (decText neg ip fp) := by
+  have hchars : ∀ c ∈ decText neg ip fp, isDigit c = true ∨ c = '-' ∨ c = '.' := by
+    intro c hc
+    simp only [decText, List.mem_append] at hc
+    rcases hc with hc | hc | hc
+    · cases neg <;> simp at hc; exact Or.inr (Or.inl hc)
+    · exact Or.inl (hd c hc)
+    · by_cases hfp : fp = []
+      · simp [hfp] at hc
+      · simp [hfp] at hc
+        rcases hc with rfl | hc
+        · exact Or.inr (Or.inr rfl)
+        · exact Or.inl (hfd c hc)
+  obtain ⟨d, m, rfl⟩ := List.exists_cons_of_ne_nil hne
+  have hdd : isDigit d = true := hd d (by simp)
+  -- the first character: `-` or a digit
+  obtain ⟨c, t, htext, hc⟩ : ∃ c t, decText neg (d :: m) fp = c :: t ∧ (48 ≤ c.toNat ∧ c.toNat ≤ 57 ∨ c.toNat = 45) := by
+    cases neg
+    · exact ⟨d, m ++ (if fp = [] then [] else '.' :: fp), by simp [decText], Or.inl (lemma_digit_range hdd)⟩
+    · exact ⟨'-', d :: (m ++ (if fp = [] then [] else '.' :: fp)), by simp [decText], Or.inr (by decide)⟩
+  have hnospace : ∀ c ∈ decText neg (d :: m) fp, isSpace c = false := by
+    intro c hc
+    rcases hchars c hc with h | rfl | rfl
+    · obtain ⟨h1, h2⟩ := lemma_digit_range h
+      exact lemma_decimal_tbl.1 _ (by omega) (Or.inl h1)
+    · decide
+    · decide
+  refine ⟨by rw [htext]; simp, hnospace, ?_⟩
+  have hcw : isWhite c = false := lemma_nonspace_nonwhite (hnospace c (by rw [htext]; simp))
+  rw [htext]
+  simp only [startsWithOp, matchFirst, lemma_skipWs_cons _ hcw]
+  rw [lemma_firstLit_all_none]; rfl
+  intro L hL
+  have hlt : c.toNat < 58 := by omega
+  have hor : 48 ≤ c.toNat ∨ c.toNat = 45 := by omega
+  obtain ⟨hLne, hhead⟩ := lemma_decimal_tbl.2 L hL c.toNat hlt hor
+  obtain ⟨l0, L', rfl⟩ := List.exists_cons_of_ne_nil hLne
+  have : l0 ≠ c := by
+    rintro rfl
+    simp at hhead
+  simp [stripPrefix, this]
+
 end Oslo.Specs
